@@ -9,6 +9,7 @@ import (
 	"os/exec"
 	"strconv"
 	"strings"
+	"syscall"
 	"time"
 	"unicode/utf8"
 )
@@ -222,6 +223,13 @@ var malformedCSVs = []string{
 }
 
 func runC19(rep *Report, r *Rng, tier string) {
+	defer func() {
+		for _, big := range []bool{false, true} {
+			for _, sig := range []syscall.Signal{syscall.SIGTERM, syscall.SIGINT} {
+				terminatedCreate(rep, "C19", big, sig)
+			}
+		}
+	}()
 	rep.Rule = "the built `updog create` binary on generated CSV files (headers with spaces, upper case, digits, punctuation, non-ASCII incl. U+0130/U+212A; fields with quotes, commas, newlines, non-ASCII, empty; 0..100 records) x {normal, --big} x output {absent, arbitrary file, valid index}; malformed CSVs (ragged, bare/unterminated quotes, empty file); exit status under a watchdog; output opened with OpenIndex: schema and probes compared with the model (Lean normalizeHeader + record i = row i); SHA-256 of a pre-existing output unchanged; thorough: header normalisation compared over all 1,114,112 code points and all 256 single bytes; non-trivial = well-formed CSV with >= 1 record; distinct by (file content, mode, output state)"
 	o := StartOracle()
 	defer o.Close()
